@@ -34,7 +34,7 @@ func checkC14(ctx *Ctx) *Result {
 	r.rule("R14.1", "gating: ACRH is reflected (debug off, discrete names) only after Check(snapshot's set, the same lines) succeeded", 20)
 	r.rule("R14.2", "per-element decision table of headers.Check", 8)
 	r.rule("R14.3", "window = MaxLen(set) + c with c ≥ 2·MaxOWSBytes+1; MaxOWSBytes = 1; MaxEmptyElements = 16", 3)
-	r.rule("R14.4", "IndexAfter: length cut-off, search in elems[n+1:], result n+1+i or -1", 1)
+	r.rule("R14.4", "IndexAfter: search in elems[n+1:], result n+1+i or -1 (a length cut-off, if any, reports -1)", 1)
 
 	// ---- R14.1 ----------------------------------------------------------
 	rt, ok := requestTableGuards(ctx, r)
@@ -333,8 +333,8 @@ func checkC14(ctx *Ctx) *Result {
 			if ret != "-1" {
 				bad = "an element longer than the longest name is not reported absent"
 			}
-		case pa.Val(tooLong) == 0:
-			bad = "no length cut-off against the longest name"
+		// (the cut-off against the longest name is an optimisation: without it
+		// the search simply does not find the over-long element)
 		case pa.Val(search+"#1") == -1:
 			if ret != "-1" {
 				bad = "an absent element is not reported as -1"
